@@ -691,6 +691,12 @@ def genuine_pool_case(cfgname, hist, problem):
 
 
 # =====================================================================================================
+def cross_curve_task(item):
+    a, b, seed = item
+    mesh_task((a, (), 0, ['Dirichlet'], False, None, seed))
+    return mesh_task((b, (), 0, ['Dirichlet', 'MildSingular'], False, None, seed))
+
+
 def _plan(ctx):
     quick = ctx.tier == 'quick'
     depth = 1 if quick else 2
@@ -794,6 +800,18 @@ def run(ctx):
     ctx.note('Prolongate: {} nested mesh pairs ({} with a genuinely finer mesh), {} calls, largest fine mesh {}'.format(
         n_pairs, n_nonid, n_pcalls, max(r['max_fine'] for r in pres)))
 
+    # cross-curve call histories in fresh processes: both estimators serve curve A (initial mesh), then curve B in the same process;
+    # B's values are judged against the reference (pairs of curves whose meshes contain identical parameter rectangles)
+    hist_pairs = [('UnitSquare', 'LShapeDriver'), ('LShapeDriver', 'UnitSquare'), ('PiSquare', 'Circle'), ('Circle', 'PiSquare'),
+                  ('UnitSquare', 'UnitSquareT'), ('UnitSquareX', 'UnitSquare')]
+    hres = common.pmap_fresh(cross_curve_task, [(a, b, ctx.seed) for a, b in hist_pairs], ctx.jobs)
+    n_hist = 0
+    for (a, b), r in zip(hist_pairs, hres):
+        n_hist += r['cmp_hh2'] + r['cmp_hier']
+        for key, what, rp in r['viols']:
+            ctx.violation(dict(key, clause='history:' + key.get('clause', ''), after=a), '{} [in a process whose estimators served {} before]'.format(what, a), dict(rp, after=a))
+    ctx.note('cross-curve histories in fresh processes: {} ordered pairs, {} value comparisons on the second curve'.format(len(hist_pairs), n_hist))
+
     # pool schedules
     sched = {'schedules': 0, 'pools': 0, 'pool_calls': 0, 'uncontrolled': 0}
     if pool_items:
@@ -825,7 +843,7 @@ def run(ctx):
     if ctx.n_viol == 0 and ctx.n_known == 0 and (agg['cmp_hh2'] < 50 or agg['cmp_hier'] < 50 or agg['vanish'] < 5 or n_nonid < 5
                                                  or agg['nontrivial'] < 50 or any(not g.get('pools_created') for g in genuine)):
         raise HarnessError('vacuous C20 run')
-    evaluations = agg['cmp_hh2'] + agg['cmp_hier'] + agg['vanish'] + agg['pool'] + agg['quarters'] + n_pcalls + sched['schedules'] + len(genuine)
+    evaluations = n_hist + agg['cmp_hh2'] + agg['cmp_hier'] + agg['vanish'] + agg['pool'] + agg['quarters'] + n_pcalls + sched['schedules'] + len(genuine)
     cov = {
         'evaluations': evaluations,
         'distinct_nontrivial': agg['nontrivial'] + n_nonid,
@@ -841,6 +859,7 @@ def run(ctx):
         'densities': agg['densities'],
         'of_which_supplementary_seeded_random_densities': agg['random'],
         'hh2_comparisons': agg['cmp_hh2'],
+        'cross_curve_history_comparisons_in_fresh_processes': n_hist,
         'hier_comparisons': agg['cmp_hier'],
         'nonneg_checks': agg['nonneg'],
         'smallest_returned_value': min_ret,
@@ -884,6 +903,8 @@ def replay(ctx, data):
     hist = _hist_from_json(data.get('history', []))
     if kind == 'mesh':
         only = data.get('density')
+        if data.get('after'):  # cross-curve history: serve the first curve in this process, then the case itself
+            mesh_task((data['after'], (), 0, ['Dirichlet'], False, None, ctx.seed))
         r = mesh_task((data['cfg'], hist, int(data.get('uniform', 0)), [data['problem']] if data['problem'] in PROBLEMS else ['Dirichlet'],
                        True, only, ctx.seed))
         for d in r['detail']:
